@@ -4,8 +4,8 @@ from ..stage import LineStage, replay_line
 from .common import *
 from . import c01, c02, c03, c09
 
-ARTEFACTS = ["G1-consts", "G2-rs-portable", "G3-arith", "G4-listings", "G9-update", "G22-dispatch"]
-EXTRA_PROPS = [("B3.Props.C01T", "B3/Props/C01T.lean"), ("B3.Props.C04T", "B3/Props/C04T.lean")]   # theorems about the code translated from the sources
+ARTEFACTS = ["G1-consts", "G2-rs-portable", "G3-arith", "G4-listings", "G9-update", "G22-dispatch", "G25-oneshot", "G8-chunkstate"]
+EXTRA_PROPS = [("B3.Props.C01T", "B3/Props/C01T.lean"), ("B3.Props.C04T", "B3/Props/C04T.lean"), ("B3.Props.C01O", "B3/Props/C01O.lean"), ("B3.Props.C02T", "B3/Props/C02T.lean")]   # theorems about the code translated from the sources
 RULE = ("every script of the C01/C02/C03/C09 generators is replicated at each forced platform {portable, sse2, sse41, avx2, avx512} "
         "(hook: thread-local override in Platform::detect) and compared with the ONE Lean model (whose SIMD degree is a parameter) and "
         "the spec, which makes all levels equal to each other; the same scripts run against a `pure` build (Rust intrinsics, no "
@@ -35,6 +35,7 @@ def base_scripts(rng, k):
         out.append(c03.history(rng, "portable", rng.randrange(2, 12)))
         out.append(c09.decomp_script(rng, "portable", 100 * 1024))
     out += c03.boundary_grid(rng, "portable", 18)
+    out += [sc for sc in c01.context_sequence_scripts(rng) if "portable" in sc.tags]
     return out
 
 
@@ -47,7 +48,7 @@ def stages(tier, seed, witness_search=False):
     st = [LineStage("default-build", scripts, normalize=norm_all), LineStage("pure-build", scripts, features=("pure",), normalize=norm_all)]
     if tier == "quick":
         # the C intrinsics build (third kernel family) on the deterministic part: one-shot lengths and the xof boundary grids
-        det = [sc for sc in scripts if "oneshot" in sc.tags or "boundary-grid" in sc.tags]
+        det = [sc for sc in scripts if "oneshot" in sc.tags or "boundary-grid" in sc.tags or "context-sequence" in sc.tags]
         st.append(LineStage("prefer_intrinsics-build", det, features=("prefer_intrinsics",), normalize=norm_all))
     # the optional mmap / rayon features only change how the bytes reach the hasher: the file entry points against plain update
     from . import c11
